@@ -317,3 +317,42 @@ class _LineProbe:
 @register("vmdk_descriptor_line")
 def open_line(files, opaque, p):
     return _LineProbe()
+
+
+class _VmtarProbe:
+    def __init__(self, p):
+        self.p = p
+
+    def members(self):
+        import io
+        import tarfile
+
+        from dissect.hypervisor.util import vmtar
+
+        p = self.p
+        if p["end"] > 1 << 26 or any(h["size"] > 1 << 24 for h in p["headers"]):
+            raise MemoryError("replay too large")
+        img = bytearray(p["end"] + 1024)
+        for h in p["headers"]:
+            ti = tarfile.TarInfo(f"m{h['pos']}")
+            ti.size = h["size"]
+            ti.type = tarfile.REGTYPE if h["type"] == "reg" else tarfile.DIRTYPE
+            blk = bytearray(ti.tobuf(tarfile.USTAR_FORMAT))
+            patch = bytes.fromhex(h["block"])
+            blk[257:264] = patch[257:264] if patch[257:264] == b"visor  " else blk[257:264]
+            blk[496:512] = patch[496:512]
+            blk[148:156] = b"        "
+            chk = sum(blk)
+            blk[148:156] = b"%06o\0 " % chk
+            img[h["pos"]: h["pos"] + 512] = blk
+        tf = vmtar.VisorTarFile(fileobj=io.BytesIO(bytes(img)))
+        out = []
+        for t in tf.getmembers():
+            od = t.offset_data
+            out.append([t.offset, od, t.size])
+        return out
+
+
+@register("vmtar")
+def open_vmtar(files, opaque, p):
+    return _VmtarProbe(p)
